@@ -284,6 +284,10 @@ def rule_cache(ctx, rep, rid="R-C11-cache"):
                 inst = "%s|sources.%s" % (fn.split("::")[-1], meth)
                 if (bd.f["name"], meth) in allowed_mut:
                     r.ok(inst, loc_str(bd.f, c.loc))
+                elif meth in ("iter_mut", "values_mut", "get_mut"):
+                    # element access: the set of documents is unchanged and what is handed out is `&mut Source`, whose fields are private
+                    # and whose writers are decided above (text only in the constructor, cache only in the filler)
+                    r.ok(inst, loc_str(bd.f, c.loc), "hands out &mut Source only; Source's own writers are decided by this rule")
                 else:
                     r.finding(inst, loc_str(bd.f, c.loc), "FileBackedProject.sources mutated by an unlisted method")
     # Source::library: the cache is filled from parse_program(self.data, self.file_id)
